@@ -154,9 +154,9 @@ def judge(rec, sp, r):
                     text = "\n".join(part.split("\ncontains\n", 1)[1] if "\ncontains\n" in part else ""
                                      for part in text.split("end module"))
                     idents = set(re.findall(r"[a-z_][a-z0-9_]*", text))
-                    present = any(stem.lower() in i and not i.startswith("c_") for i in idents)
+                    present = any(re.search(r"(?<![a-z0-9])%s(?![a-z0-9])" % re.escape(stem.lower()), i) and not i.startswith("c_") for i in idents)
                 else:
-                    present = re.search(r"(?<![a-z0-9])%s(?![0-9])" % re.escape(stem.lower()), text) is not None
+                    present = re.search(r"(?<![a-z0-9])%s(?![a-z0-9])" % re.escape(stem.lower()), text) is not None
                 want = fl[lang]
                 if lang == "c":
                     if fl["fortran"]:
@@ -218,8 +218,17 @@ def main(rec):
         decl_flags = {}
         stem_opts = {}
         aux = {}
+        nest = []
         rows = {x["id"]: x for x in gen.R.ROWS}
-        for ent in d["declarations"]:
+        def walk(ents):
+            # functions inside namespace blocks are override targets of their own (the namespace entry itself is not)
+            for e_ in ents:
+                if e_.get("decl", "").lstrip().startswith("namespace") and e_.get("declarations"):
+                    for x in walk(e_["declarations"]):
+                        yield x
+                else:
+                    yield e_
+        for ent in walk(d["declarations"]):
             dec = ent["decl"]
             m = re.search(r"\b(f\d+[a-z0-9]+)", dec)
             if m and dec.lstrip().startswith(("enum", "struct", "typedef")):
@@ -243,7 +252,11 @@ def main(rec):
                 ov = {k: v for k, v in ov.items() if not v or k in sup}
                 if ov:
                     stem_opts[stem] = {"wrap_" + k: bool(v) for k, v in ov.items()}
-                    ent.setdefault("options", {}).update(stem_opts[stem])
+                    if r.random() < 0.3 and any(ent is t for t in d["declarations"]):
+                        # the same flags written on a block that holds the declaration inside a second, empty block
+                        nest.append((ent, dict(stem_opts[stem])))
+                    else:
+                        ent.setdefault("options", {}).update(stem_opts[stem])
                     fl.update(ov)
             if (re.search(r"std::vector\s*<[^>]*>\s*[&*]?\s*\w+\s*[,)+]", dec) or re.match(r"\s*(const\s+)?std::(string|vector\s*<[^>]*>)\s+\w+\s*\(", dec)) and not fl["fortran"]:
                 # a function with std::vector arguments or a std::string result by value has no plain C entry point
@@ -257,6 +270,9 @@ def main(rec):
                 decl_flags[stem]["lang_ok"] = {k: False for k in ("c", "fortran", "python", "lua")}
                 for k in ("c", "fortran", "python", "lua"):
                     decl_flags[stem][k] = max(decl_flags[stem][k], fl[k])      # "switched on somewhere" for the file-level oracle
+        for ent_, opts_ in nest:
+            i_ = next(i for i, t in enumerate(d["declarations"]) if t is ent_)
+            d["declarations"][i_] = {"block": True, "options": opts_, "declarations": [{"block": True, "declarations": [ent_]}]}
         das = dir_assignment(r)
         y = workloads.dump_yaml(d)
         sp = make_spec(name, "work/%s.yaml" % name, y, None, [], lib_flags, das, decl_flags)
@@ -273,6 +289,37 @@ def main(rec):
             sp2["toggle_only"] = True
             extra_specs.append(sp2)
         specs.append(sp)
+    # a wrapper switched on only on a function that sits inside (nested) namespace blocks, everything else off
+    allrows = {x["id"]: x for x in gen.R.ROWS}
+    for rid in ("namespace_scalar", "namespace_fn"):
+        rw = allrows.get(rid)
+        if not rw:
+            continue
+        for lang_on in ("c", "fortran", "python", "lua"):
+            if lang_on not in rw["wraps"]:
+                continue
+            d = gen.library("nson_%s_%s" % (rid.replace("_", ""), lang_on), "c++", [(rw, None)], ())
+            d["options"].update({"wrap_c": False, "wrap_fortran": False, "wrap_python": False, "wrap_lua": False})
+            flags = {}
+            def walk2(ents):
+                for e_ in ents:
+                    if e_.get("declarations") and e_["decl"].lstrip().startswith("namespace"):
+                        walk2(e_["declarations"])
+                    else:
+                        m_ = re.search(r"\b(f\d+[a-z0-9]+(?:_[a-z]+)?)\s*\(", e_["decl"])
+                        if m_:
+                            on = {"wrap_" + lang_on: True}
+                            if lang_on == "fortran":
+                                on["wrap_c"] = True
+                            e_.setdefault("options", {}).update(on)
+                            fl_ = {"c": int(lang_on in ("c", "fortran")), "fortran": int(lang_on == "fortran"), "python": int(lang_on == "python"),
+                                   "lua": int(lang_on == "lua")}
+                            flags[m_.group(1)] = fl_
+            walk2(d["declarations"])
+            sp = make_spec(d["library"], "work/%s.yaml" % d["library"], workloads.dump_yaml(d), None, [],
+                           {"c": 0, "fortran": 0, "python": 0, "lua": 0}, dir_assignment(r), flags)
+            sp["lang"] = "c++"
+            specs.append(sp)
     # overload sets of which one member is switched off for C and Fortran only (it then follows the library-level
     # Python / Lua switches): the names of the remaining members must not depend on those switches
     for name, d, meta in libs:
